@@ -49,120 +49,16 @@ func propC13(c *Ctx, r *Report) {
 	// reload would (shared with C07-R3/C09)
 	r.rule("C13/average-window", 1, "the incrementally maintained averaging window equals a reloaded one in size and membership")
 	windowSize(c, r, "C13/average-window")
-	tick, max := c.tickers()
-	small := map[int64]bool{}
-	for _, n := range smallOneWay {
-		v, ok := tick[n]
-		if !ok {
-			die(2, "unresolved anchor: ticker %s", n)
-		}
-		small[v] = true
-	}
-	fct := tick["FCT"]
-	atb := c.fn("node.Pegnetd.applyTransactionBatch")
-	r.rule("C13/admission-table", 50, "exits of the admission loop per (height class, destination, rate pattern)")
+	// no rates, no execution: held conversions run only in a block with winners (shared with C12/C06)
+	winnerTable(c, r, e, "C13/winners-gate-execution")
+	// the averages that decide "unavailable" are those of the last rated height (shared with C07-R3/C09)
+	ruleHoldingWindow(c, r, "C13/averages-height")
+	tick, _ := c.tickers()
 	names := map[int64]string{}
 	for n, v := range tick {
 		names[v] = n
 	}
-	type cell struct{ zin, zout bool }
-	patterns := []cell{{false, false}, {true, false}, {false, true}, {true, true}}
-	nsc := 0
-	type tres struct {
-		bad   []string
-		n     int
-		found bool
-	}
-	results := make([]tres, max)
-	var wg sync.WaitGroup
-	sem := make(chan struct{}, 16)
-	for t := int64(1); t < max; t++ {
-		wg.Add(1)
-		sem <- struct{}{}
-		go func(t int64) {
-			defer wg.Done()
-			defer func() { <-sem }()
-			res := tres{found: true}
-			for _, h := range e.reps {
-				for pi, p := range patterns {
-					if pi > 0 && c.Tier != "thorough" && !(t == fct || t == tick["PEG"] || t == tick["USD"] || t == tick["RVN"]) {
-						continue
-					}
-					if pi > 0 && !e.repsQ[h] {
-						continue // zero-rate patterns on the class representatives; the +-150 windows re-check the non-zero pattern
-					}
-					in := int64(2) // pUSD
-					if t == 2 {
-						in = 3
-					}
-					rate := func(z bool) AVal {
-						if z {
-							return cUint(0)
-						}
-						return cUint(123456)
-					}
-					sc := &Scenario{
-						Params:   map[string]AVal{"type:uint32": hconst(h), "type:map[fat2.PTicker]uint64#0": nonNil},
-						Calls:    map[string]AVal{"fat2.Transaction.IsConversion": cBool(true)},
-						Paths:    map[string]AVal{"fat2.Transaction.Conversion": cInt(t), "fat2.TypedAddressAmountTuple.Type": cInt(in)},
-						Lookups:  map[string]AVal{"rates[fat2.TypedAddressAmountTuple.Type]": rate(p.zin), "rates[fat2.Transaction.Conversion]": rate(p.zout)},
-						Lens:     map[string]AVal{"rates": cInt(62)},
-						MaxDepth: 1,
-					}
-					st := newSCCP(c, sc).run(atb, nil, 0)
-					res.n++
-					le := loopOver(st, "fat2.TransactionBatch.Transactions", 1)
-					if !le.Found {
-						res.found = false
-						results[t] = res
-						return
-					}
-					// always possible: insufficient balance, and a database error reading the balance (unknown error)
-					want := []string{"err:InsufficientBalanceErr", "⊤"}
-					switch {
-					case p.zin || p.zout:
-						want = append(want, "err:ZeroRatesError")
-					case h >= e.a.get("OneWaypFCTConversions") && t == fct:
-						want = append(want, "err:PFCTOneWayError")
-					case h >= e.a.get("OneWaySmallAssetsConversions") && small[t]:
-						want = append(want, "err:PSMALLOneWayError")
-					default:
-						want = append(want, "nil", "next")
-					}
-					sort.Strings(want)
-					got := append([]string{}, le.Returns...)
-					if le.Latch {
-						got = append(got, "next")
-					}
-					sort.Strings(got)
-					if strings.Join(want, "|") != strings.Join(got, "|") && len(res.bad) < 4 {
-						res.bad = append(res.bad, fmt.Sprintf("h=%d in-rate-zero=%v out-rate-zero=%v: expected exits {%s}, code gives {%s}", h, p.zin, p.zout, strings.Join(want, ","), strings.Join(got, ",")))
-					}
-				}
-			}
-			results[t] = res
-		}(t)
-	}
-	wg.Wait()
-	for t := int64(1); t < max; t++ {
-		res := results[t]
-		nsc += res.n
-		if !res.found {
-			r.undecided("C13/admission-table", "admission loop", c.pos(atb.Pos()), "loop over txBatch.Transactions not found")
-			return
-		}
-		cons := fmt.Sprintf("destination p%s (%d)", names[t], t)
-		if t == 1 {
-			cons = "destination PEG (1)"
-		}
-		if len(res.bad) == 0 {
-			r.okNT("C13/admission-table", cons, c.pos(atb.Pos()), "all height classes and rate patterns agree with the oracle")
-		} else {
-			r.viol("C13/admission-table", cons, c.pos(atb.Pos()), strings.Join(res.bad, "; "))
-		}
-	}
-	r.Scen += nsc
-
+	ruleAdmissionTable(c, r, e, "C13/admission-table")
 	// height plumbing: the height checked is the executing block's height (both executors)
 	ruleHeightPlumbing(c, r, "C13/height-plumbing")
 	hold := c.fn("node.Pegnetd.ApplyTransactionBatchesInHolding")
@@ -339,4 +235,123 @@ func ruleHeightPlumbing(c *Ctx, r *Report, rule string) {
 		a := ci.Common().Args
 		r.check(c.isExecHeight(a[3]), rule, "SyncBlock passes its height to the holding executor", c.ipos(ci), "", "holding executor is given "+c.describeOrigin(a[3]))
 	}
+}
+
+// ruleAdmissionTable: exits of the admission loop of applyTransactionBatch per (height class, destination, rate
+// pattern) against the oracle (shared by C13 and C07: every other well-formed conversion is executed).
+func ruleAdmissionTable(c *Ctx, r *Report, e *eraCtx, rule string) {
+	tick, max := c.tickers()
+	small := map[int64]bool{}
+	for _, n := range smallOneWay {
+		v, ok := tick[n]
+		if !ok {
+			die(2, "unresolved anchor: ticker %s", n)
+		}
+		small[v] = true
+	}
+	fct := tick["FCT"]
+	atb := c.fn("node.Pegnetd.applyTransactionBatch")
+	r.rule(rule, 50, "exits of the admission loop per (height class, destination, rate pattern)")
+	names := map[int64]string{}
+	for n, v := range tick {
+		names[v] = n
+	}
+	type cell struct{ zin, zout bool }
+	patterns := []cell{{false, false}, {true, false}, {false, true}, {true, true}}
+	nsc := 0
+	type tres struct {
+		bad   []string
+		n     int
+		found bool
+	}
+	results := make([]tres, max)
+	var wg sync.WaitGroup
+	sem := make(chan struct{}, 16)
+	for t := int64(1); t < max; t++ {
+		wg.Add(1)
+		sem <- struct{}{}
+		go func(t int64) {
+			defer wg.Done()
+			defer func() { <-sem }()
+			res := tres{found: true}
+			for _, h := range e.reps {
+				for pi, p := range patterns {
+					if pi > 0 && c.Tier != "thorough" && !(t == fct || t == tick["PEG"] || t == tick["USD"] || t == tick["RVN"]) {
+						continue
+					}
+					if pi > 0 && !e.repsQ[h] {
+						continue // zero-rate patterns on the class representatives; the +-150 windows re-check the non-zero pattern
+					}
+					in := int64(2) // pUSD
+					if t == 2 {
+						in = 3
+					}
+					rate := func(z bool) AVal {
+						if z {
+							return cUint(0)
+						}
+						return cUint(123456)
+					}
+					sc := &Scenario{
+						Params:   map[string]AVal{"type:uint32": hconst(h), "type:map[fat2.PTicker]uint64#0": nonNil},
+						Calls:    map[string]AVal{"fat2.Transaction.IsConversion": cBool(true)},
+						Paths:    map[string]AVal{"fat2.Transaction.Conversion": cInt(t), "fat2.TypedAddressAmountTuple.Type": cInt(in)},
+						Lookups:  map[string]AVal{"rates[fat2.TypedAddressAmountTuple.Type]": rate(p.zin), "rates[fat2.Transaction.Conversion]": rate(p.zout)},
+						Lens:     map[string]AVal{"rates": cInt(62)},
+						MaxDepth: 1,
+					}
+					st := newSCCP(c, sc).run(atb, nil, 0)
+					res.n++
+					le := loopOver(st, "fat2.TransactionBatch.Transactions", 1)
+					if !le.Found {
+						res.found = false
+						results[t] = res
+						return
+					}
+					// always possible: insufficient balance, and a database error reading the balance (unknown error)
+					want := []string{"err:InsufficientBalanceErr", "⊤"}
+					switch {
+					case p.zin || p.zout:
+						want = append(want, "err:ZeroRatesError")
+					case h >= e.a.get("OneWaypFCTConversions") && t == fct:
+						want = append(want, "err:PFCTOneWayError")
+					case h >= e.a.get("OneWaySmallAssetsConversions") && small[t]:
+						want = append(want, "err:PSMALLOneWayError")
+					default:
+						want = append(want, "nil", "next")
+					}
+					sort.Strings(want)
+					got := append([]string{}, le.Returns...)
+					if le.Latch {
+						got = append(got, "next")
+					}
+					sort.Strings(got)
+					if strings.Join(want, "|") != strings.Join(got, "|") && len(res.bad) < 4 {
+						res.bad = append(res.bad, fmt.Sprintf("h=%d in-rate-zero=%v out-rate-zero=%v: expected exits {%s}, code gives {%s}", h, p.zin, p.zout, strings.Join(want, ","), strings.Join(got, ",")))
+					}
+				}
+			}
+			results[t] = res
+		}(t)
+	}
+	wg.Wait()
+	for t := int64(1); t < max; t++ {
+		res := results[t]
+		nsc += res.n
+		if !res.found {
+			r.undecided(rule, "admission loop", c.pos(atb.Pos()), "loop over txBatch.Transactions not found")
+			return
+		}
+		cons := fmt.Sprintf("destination p%s (%d)", names[t], t)
+		if t == 1 {
+			cons = "destination PEG (1)"
+		}
+		if len(res.bad) == 0 {
+			r.okNT(rule, cons, c.pos(atb.Pos()), "all height classes and rate patterns agree with the oracle")
+		} else {
+			r.viol(rule, cons, c.pos(atb.Pos()), strings.Join(res.bad, "; "))
+		}
+	}
+	r.Scen += nsc
+
 }
